@@ -116,7 +116,8 @@ names, tuple indexing instead of unpacking, positional instead of keyword argume
 On the first run 10 of them lost proofs, all for two reasons that are now handled by the engine: module-level named
 constants (`_STORY_TAG = 'story'`) are resolved to their value when the name is bound exactly once, and message texts
 built with `str.format` / `%%` are opaque strings like f-strings (`'{}ID'.format(tag)`, `'%%sID' %% tag` and
-`tag + 'ID'` are the ID-tag name like `f'{tag}ID'`).  What remains out of reach by design: a refactor that
+`tag + 'ID'` are the ID-tag name like `f'{tag}ID'`); re-run afterwards, those ten (and the three of the first set that had
+lost proofs) pass 128 check runs with every function proved.  What remains out of reach by design: a refactor that
 introduces a genuinely new loop or moves a loop that carries an invariant into a new helper function (`RGB_4`,
 `RGD_6`; `extend` in a loop instead of `chain.from_iterable`, `RFC_5`) needs a new invariant / contract; the
 function is then reported as a tool limit and decided by the bounded check only.
